@@ -5,6 +5,12 @@ ROOT = os.path.dirname(os.path.dirname(os.path.abspath(__file__)))
 props = [json.loads(l) for l in open(os.path.join(ROOT, "properties.jsonl"))]
 
 CHECKS = {
+ "C08": dict(
+   category="proof",
+   text="Coq theorems over unbounded Z for every integer weight vector: new() returns InvalidInput / InvalidWeight / InsufficientNonZero exactly on the documented conditions and otherwise Ok, never panicking (no intermediate leaves the weight type, the pairing loop terminates); for every constructed table: mass conservation odds_i + aliased mass = n*w_i, leftover columns have odds exactly sum (the u32::MAX sentinel is never dereferenced), weights() returns the input, exactly n*w_i of the n*sum (column,threshold) pairs select i, zero weights are never returned; Lemire range sampling stays in range. The model is tied to the code by comparing the Debug-printed aliases/no_alias_odds, weights() and samples on scripted words for exhaustive small-alphabet vectors and random vectors.",
+   note="Trusted: Coq kernel; hand model coq/Model/Alias.v tied by correspondence; rand's Uniform modelled. Float weights: direct oracle + known finding F8.",
+   technique="Coq proof (loop invariant on small/big stacks, mass conservation, counting) + model/implementation correspondence",
+   design="DESIGN.md §6 C08"),
  "C09": dict(
    category="proof",
    text="Coq theorems over unbounded Z and arbitrary finite histories: every reachable WeightedTreeIndex state (integer weights) refines the plain weight list, equals a fresh build of it (rep_unique), errors are atomic, Overflow is exact, no panic for in-range arguments. The hand-written model is tied to the code by running identical histories through the real crate and the model (every return value and the subtotals after every step).",
